@@ -150,9 +150,13 @@ class MessageSigner(object):
 
         # Calculate the specific public key used to sign this message.
         y_parity = recid & 1
-        q = self._generator.possible_public_pairs_for_signature(
+        pairs = self._generator.possible_public_pairs_for_signature(
             msg_hash, (r, s), y_parity=y_parity
-        )[0]
+        )
+        if not pairs:
+            # no curve point has the x coordinate r
+            raise EncodingError("no public key can be recovered from this signature")
+        q = pairs[0]
         if recid > 1:
             order = self._generator.order()
             q = self._generator.Point(q[0] + order, q[1])
